@@ -48,6 +48,35 @@ type Case struct {
 	Inputs [][]float64
 }
 
+// LongClones returns copies of the space whose cases are single calls over LONG series: every one-letter word (or, for
+// alphabets of at most maxTwo letters, every two-letter word) repeated so that the series has exactly the given length,
+// the remainder being filled by a prefix of the first letters (lengths such as 1024 and 1027: a kernel that works in
+// blocks, or switches path above a length, must still treat the whole series). The oracle is the space's own.
+func (s *Space) LongClones(lengths []int, maxTwo int) []*Space {
+	var out []*Space
+	for _, n := range lengths {
+		c := *s
+		w := 1
+		if len(s.Letters) <= maxTwo {
+			w = 2
+		}
+		c.T, c.MinT, c.Repeat = w, w, n/w
+		var pre []int
+		for k := 0; k < n-(n/w)*w; k++ {
+			pre = append(pre, k%len(s.Letters))
+		}
+		c.Prefix = [][]int{pre}
+		if c.Name == "" {
+			c.Name = c.Model
+		}
+		c.Name = fmt.Sprintf("%s/long(n=%d)", c.Name, n)
+		c.SecondPassEvery = 0 // every long case twice on the same arrays (a buffer recycled between calls must come back clean)
+		c.nw, c.nTot = nil, 0
+		out = append(out, &c)
+	}
+	return out
+}
+
 func (s *Space) prep() {
 	if s.Name == "" {
 		s.Name = s.Model
